@@ -55,6 +55,8 @@ type acEvent struct {
 	Node int    `json:"node,omitempty"`
 	Key  string `json:"key,omitempty"`
 	MS   int    `json:"ms,omitempty"`
+	Keys []string `json:"keys,omitempty"` // tx: keys set in one transaction
+	N    int      `json:"n,omitempty"`    // burst: number of consecutive sets
 	A    int    `json:"a,omitempty"`
 	B    int    `json:"b,omitempty"`
 }
@@ -68,6 +70,11 @@ type acCase struct {
 	NetSeed   int64     `json:"net_seed"`
 	Recovery  int       `json:"recovery_threshold"`
 	GossipMS  int       `json:"gossip_ms"`
+	// Stall: node with an extra subscriber that never returns from its first
+	// notification (0 = none); StallFirst registers it before the other subscribers
+	Stall      int  `json:"stall,omitempty"`
+	StallFirst bool `json:"stall_first,omitempty"`
+	ShuffleMaps bool `json:"shuffle_maps,omitempty"`
 }
 
 func genAC(t *rapid.T) acCase {
@@ -80,10 +87,23 @@ func genAC(t *rapid.T) acCase {
 	}
 	keys := []string{"a", "b", "c"}[:rapid.IntRange(1, 3).Draw(t, "nkeys")]
 	restarts := 0
+	if rapid.IntRange(0, 3).Draw(t, "stall") == 0 {
+		// a stalled co-subscriber and enough changes to fill its buffer
+		c.Stall = rapid.IntRange(1, c.Nodes).Draw(t, "stallnode")
+		c.StallFirst = rapid.Bool().Draw(t, "stallfirst")
+		c.ShuffleMaps = rapid.Bool().Draw(t, "shufflemaps")
+		c.Events = append(c.Events, acEvent{K: "burst", Node: rapid.IntRange(1, c.Nodes).Draw(t, "bnode"), Key: keys[0], N: rapid.IntRange(66, 80).Draw(t, "burstn")})
+	}
 	for n := rapid.IntRange(2, 25).Draw(t, "n"); n > 0; n-- {
 		switch k := rapid.IntRange(0, 14).Draw(t, "k"); {
 		case k < 6:
 			c.Events = append(c.Events, acEvent{K: "set", Node: rapid.IntRange(1, c.Nodes).Draw(t, "node"), Key: keys[rapid.IntRange(0, len(keys)-1).Draw(t, "key")]})
+		case k < 7 && len(keys) > 1 && rapid.IntRange(0, 1).Draw(t, "astx") == 0:
+			ev := acEvent{K: "tx", Node: rapid.IntRange(1, c.Nodes).Draw(t, "node")}
+			for j := rapid.IntRange(2, 4).Draw(t, "ntx"); j > 0; j-- {
+				ev.Keys = append(ev.Keys, keys[rapid.IntRange(0, len(keys)-1).Draw(t, "txkey")])
+			}
+			c.Events = append(c.Events, ev)
 		case k < 7:
 			c.Events = append(c.Events, acEvent{K: "del", Node: rapid.IntRange(1, c.Nodes).Draw(t, "node"), Key: keys[rapid.IntRange(0, len(keys)-1).Draw(t, "key")]})
 		case k < 11:
@@ -126,6 +146,11 @@ type acNet struct {
 	// feedback[node][key@version] = feedback messages delivered to the node for it
 	feedback map[int]map[string]int
 	msgs     map[string]int
+	// down: nodes that are closing, closed or reopening; what reaches them meanwhile
+	// (the transport still accepts, the pipeline no longer applies) does not count as
+	// having been offered. epoch[node] changes with every stop.
+	down  map[int]bool
+	epoch map[int]int
 }
 
 type acFault struct {
@@ -175,9 +200,21 @@ func (n *acNet) note(format string, args ...any) {
 	}
 }
 
-func (n *acNet) offer(node int, ops []ikv.Operation) {
+func (n *acNet) epochOf(node int) int {
 	n.mu.Lock()
 	defer n.mu.Unlock()
+	if n.down[node] {
+		return -1
+	}
+	return n.epoch[node]
+}
+
+func (n *acNet) offer(node int, epoch int, ops []ikv.Operation) {
+	n.mu.Lock()
+	defer n.mu.Unlock()
+	if epoch < 0 || n.down[node] || n.epoch[node] != epoch {
+		return
+	}
 	m := n.offered[node]
 	if m == nil {
 		m = map[string]int64{}
@@ -204,8 +241,8 @@ type acClient[RQ, RS freighter.Payload] struct {
 	net  *acNet
 	src  address.Address
 	kind string
-	req  func(dst address.Address, rq RQ)
-	res  func(dst address.Address, rs RS)
+	req  func(dst address.Address, rq RQ, dstEpoch int)
+	res  func(dst address.Address, rs RS, srcEpoch int)
 }
 
 func (c *acClient[RQ, RS]) Send(ctx context.Context, target address.Address, req RQ) (res RS, err error) {
@@ -216,9 +253,10 @@ func (c *acClient[RQ, RS]) Send(ctx context.Context, target address.Address, req
 	if f.delay > 0 {
 		time.Sleep(f.delay)
 	}
+	dstEpoch, srcEpoch := c.net.epochOf(c.net.idOf[target]), c.net.epochOf(c.net.idOf[c.src])
 	if f.dup {
 		if _, derr := c.UnaryClient.Send(ctx, target, req); derr == nil && c.req != nil {
-			c.req(target, req)
+			c.req(target, req, dstEpoch)
 		}
 	}
 	res, err = c.UnaryClient.Send(ctx, target, req)
@@ -226,14 +264,14 @@ func (c *acClient[RQ, RS]) Send(ctx context.Context, target address.Address, req
 		return res, err
 	}
 	if c.req != nil {
-		c.req(target, req)
+		c.req(target, req, dstEpoch)
 	}
 	if f.dropReply {
 		var zero RS
 		return zero, errors.New("simnet: reply lost")
 	}
 	if c.res != nil {
-		c.res(target, res)
+		c.res(target, res, srcEpoch)
 	}
 	return res, nil
 }
@@ -256,12 +294,12 @@ func (t *acTransport) GossipClient() cgossip.TransportClient {
 func (t *acTransport) TxClient() ikv.TxTransportClient {
 	me := t.net.idOf[t.src]
 	return &acClient[ikv.TxRequest, ikv.TxRequest]{UnaryClient: t.Transport.TxClient(), net: t.net, src: t.src, kind: "kv_gossip",
-		req: func(dst address.Address, rq ikv.TxRequest) {
-			t.net.offer(t.net.idOf[dst], rq.Operations)
+		req: func(dst address.Address, rq ikv.TxRequest, ep int) {
+			t.net.offer(t.net.idOf[dst], ep, rq.Operations)
 			t.net.note("ops %d->%d:%s", me, t.net.idOf[dst], acOps(rq.Operations))
 		},
-		res: func(dst address.Address, rs ikv.TxRequest) {
-			t.net.offer(me, rs.Operations)
+		res: func(dst address.Address, rs ikv.TxRequest, ep int) {
+			t.net.offer(me, ep, rs.Operations)
 			t.net.note("ops-reply %d->%d:%s", t.net.idOf[dst], me, acOps(rs.Operations))
 		}}
 }
@@ -269,7 +307,7 @@ func (t *acTransport) TxClient() ikv.TxTransportClient {
 func (t *acTransport) LeaseClient() ikv.LeaseTransportClient {
 	me := t.net.idOf[t.src]
 	return &acClient[ikv.TxRequest, types.Nil]{UnaryClient: t.Transport.LeaseClient(), net: t.net, src: t.src, kind: "kv_lease",
-		req: func(dst address.Address, rq ikv.TxRequest) {
+		req: func(dst address.Address, rq ikv.TxRequest, _ int) {
 			t.net.note("lease %d->%d:%s", me, t.net.idOf[dst], acOps(rq.Operations))
 		}}
 }
@@ -277,7 +315,7 @@ func (t *acTransport) LeaseClient() ikv.LeaseTransportClient {
 func (t *acTransport) FeedbackClient() ikv.FeedbackTransportClient {
 	me := t.net.idOf[t.src]
 	return &acClient[ikv.FeedbackMessage, types.Nil]{UnaryClient: t.Transport.FeedbackClient(), net: t.net, src: t.src, kind: "kv_feedback",
-		req: func(dst address.Address, rq ikv.FeedbackMessage) {
+		req: func(dst address.Address, rq ikv.FeedbackMessage, _ int) {
 			d := t.net.idOf[dst]
 			t.net.mu.Lock()
 			m := t.net.feedback[d]
@@ -295,10 +333,13 @@ func (t *acTransport) FeedbackClient() ikv.FeedbackTransportClient {
 		}}
 }
 
-// acClassifyStall names the way gossip stopped short for the first key on which the
-// nodes still disagree: which nodes hold the newest stored version, whether the lagging
-// node was ever offered it, and whether the holders had the documented grounds to stop
-// propagating it (RecoveryThreshold redundant sends, i.e. that many feedback messages).
+// acClassifyStall names the way gossip stopped short. Every key on which the nodes still
+// disagree is classified on its own: which nodes hold the newest stored version, whether
+// the lagging node was ever offered it, whether the key's leaseholder or another holder
+// was restarted after an acknowledged write of the key, and whether the holders had the
+// documented grounds to stop propagating it (RecoveryThreshold redundant sends, i.e.
+// that many feedback messages). The signature of the first key that is NOT explained by
+// a recorded finding wins; otherwise the first key's.
 func acClassifyStall(c acCase, net *acNet, nodes []*acNode, keySet map[string]bool, writes []acWrite, digestOf func(*acNode, string) (acDigest, bool)) string {
 	keys := make([]string, 0, len(keySet))
 	for k := range keySet {
@@ -307,14 +348,17 @@ func acClassifyStall(c acCase, net *acNet, nodes []*acNode, keySet map[string]bo
 	sort.Strings(keys)
 	net.mu.Lock()
 	defer net.mu.Unlock()
+	first, firstUnexplained := "", ""
 	for _, key := range keys {
 		var vmax int64 = -1
 		vers := map[int]int64{}
+		lh := 0
 		for _, nd := range nodes[1:] {
 			d, ok := digestOf(nd, key)
 			v := int64(-1)
 			if ok {
 				v = d.Version
+				lh = int(d.Leaseholder)
 			}
 			vers[nd.id] = v
 			if v > vmax {
@@ -332,46 +376,63 @@ func acClassifyStall(c acCase, net *acNet, nodes []*acNode, keySet map[string]bo
 		if len(laggards) == 0 {
 			continue
 		}
+		restartedAfterWrite := func(n int) bool {
+			for _, w := range writes {
+				if w.key != key {
+					continue
+				}
+				for ei, ev := range c.Events {
+					if ev.K == "restart" && ev.Node == n && ei > w.ev {
+						return true
+					}
+				}
+			}
+			return false
+		}
+		sig, explained := "", false
+		offered := false
 		for _, x := range laggards {
 			if net.offered[x][key] >= vmax {
-				return "newest-version-was-delivered-to-the-lagging-node-but-not-applied"
-			}
-		}
-		firstWrite := -1
-		wi := -1
-		for ei, ev := range c.Events {
-			if ev.K == "set" || ev.K == "del" {
-				wi++
-				if ev.Key == key && firstWrite < 0 {
-					firstWrite = ei
-				}
-			}
-		}
-		_ = wi
-		early, restarted := false, true
-		for _, h := range holders {
-			if net.feedback[h][key+"@"+strconv.FormatInt(vmax, 10)] >= ikv.DefaultConfig.RecoveryThreshold {
-				continue
-			}
-			early = true
-			r := false
-			for ei, ev := range c.Events {
-				if ev.K == "restart" && ev.Node == h && ei > firstWrite {
-					r = true
-				}
-			}
-			if !r {
-				restarted = false
+				offered = true
 			}
 		}
 		switch {
-		case !early:
-			return "rumor-died-out:every-holder-received-the-recovery-threshold-of-feedback-before-any-of-them-picked-the-lagging-node"
-		case restarted:
-			return "holder-restarted-while-its-copy-was-still-infected"
+		case offered:
+			sig = "newest-version-was-delivered-to-the-lagging-node-but-not-applied"
+		case lh != 0 && restartedAfterWrite(lh):
+			sig, explained = "leaseholder-restarted-before-its-write-was-gossiped", true
 		default:
-			return "holders-stopped-propagating-before-the-recovery-threshold-of-feedback"
+			early, restarted := false, true
+			for _, h := range holders {
+				if net.feedback[h][key+"@"+strconv.FormatInt(vmax, 10)] >= ikv.DefaultConfig.RecoveryThreshold {
+					continue
+				}
+				early = true
+				if !restartedAfterWrite(h) {
+					restarted = false
+				}
+			}
+			switch {
+			case !early:
+				sig, explained = "rumor-died-out:every-holder-received-the-recovery-threshold-of-feedback-before-any-of-them-picked-the-lagging-node", true
+			case restarted:
+				sig, explained = "holder-restarted-while-its-copy-was-still-infected", true
+			default:
+				sig = "holders-stopped-propagating-before-the-recovery-threshold-of-feedback"
+			}
 		}
+		if first == "" {
+			first = sig
+		}
+		if !explained && firstUnexplained == "" {
+			firstUnexplained = sig
+		}
+	}
+	switch {
+	case firstUnexplained != "":
+		return firstUnexplained
+	case first != "":
+		return first
 	}
 	return "after-faults-stopped"
 }
@@ -392,6 +453,17 @@ type acNode struct {
 	fnotes []acNote // host-leaseholder-filtered subscriber
 	mu     sync.Mutex
 	maxVer map[string]int64
+	// stored: key=value pairs this node was seen to hold (polled after every event)
+	stored    map[string]bool
+	restarted bool
+	stall     chan struct{}
+}
+
+func (nd *acNode) release() {
+	if nd.stall != nil {
+		close(nd.stall)
+		nd.stall = nil
+	}
 }
 
 type acNote struct {
@@ -401,6 +473,7 @@ type acNote struct {
 }
 
 type acWrite struct {
+	ev   int // index of the script event that issued it
 	key  string
 	val  string
 	del  bool
@@ -444,7 +517,7 @@ func runAC(t *testing.T, c acCase, st *drv.Stats, prop string) (fail *drv.Failur
 		// instrumented lock, atomic and channel points), so that at most one goroutine
 		// is runnable between two decisions and the run replays exactly; the script
 		// itself is one more task. Virtual time only advances when nothing is runnable.
-		sc := sim.New(sim.Config{Strategy: sim.StratSticky, SwitchInv: 3, Classes: sim.ClassAll, MaxSteps: 5_000_000, HorizonNS: int64(120 * time.Second)}, sim.NewChoices(uint64(c.NetSeed)))
+		sc := sim.New(sim.Config{Strategy: sim.StratSticky, SwitchInv: 3, Classes: sim.ClassAll, MaxSteps: 5_000_000, HorizonNS: int64(120 * time.Second), ShuffleMaps: c.ShuffleMaps}, sim.NewChoices(uint64(c.NetSeed)))
 		if p := os.Getenv("VERIF_SCHEDLOG"); p != "" {
 			sc.KeepLog = 1 << 22
 			defer func() { _ = os.WriteFile(p, []byte(strings.Join(sc.Trace, "\n")), 0o644) }()
@@ -484,7 +557,7 @@ func runACBody(t *testing.T, c acCase, st *drv.Stats, prop string, failp **drv.F
 		start := time.Now()
 		defer func() { *virtual = time.Since(start) }()
 		net := &acNet{rng: rand.New(rand.NewSource(c.NetSeed)), c: c, blocked: map[[2]string]bool{}, fired: map[string]int{}, addrOf: map[int]address.Address{},
-			idOf: map[address.Address]int{}, offered: map[int]map[string]int64{}, feedback: map[int]map[string]int{}, msgs: map[string]int{}}
+			idOf: map[address.Address]int{}, offered: map[int]map[string]int64{}, feedback: map[int]map[string]int{}, msgs: map[string]int{}, down: map[int]bool{}, epoch: map[int]int{}}
 		mnet := mock.NewNetwork()
 		nodes := make([]*acNode, c.Nodes+1)
 		var peers []address.Address
@@ -504,6 +577,18 @@ func runACBody(t *testing.T, c acCase, st *drv.Stats, prop string, failp **drv.F
 				return err
 			}
 			nd.db = db
+			stalled := func() {
+				if c.Stall == nd.id {
+					// the handler never returns while the node runs; it is released
+					// just before the node is closed (Close waits for handlers)
+					ch := make(chan struct{})
+					nd.stall = ch
+					nd.db.OnChange(func(context.Context, xkv.TxReader) { <-ch })
+				}
+			}
+			if c.StallFirst {
+				stalled()
+			}
 			nd.db.OnChange(func(_ context.Context, r xkv.TxReader) {
 				nd.mu.Lock()
 				defer nd.mu.Unlock()
@@ -518,11 +603,15 @@ func runACBody(t *testing.T, c acCase, st *drv.Stats, prop string, failp **drv.F
 					nd.fnotes = append(nd.fnotes, acNote{key: string(ch.Key), val: string(ch.Value), del: ch.Variant == change.VariantDelete})
 				}
 			})
+			if !c.StallFirst {
+				stalled()
+			}
 			return nil
 		}
 		defer func() {
 			for _, nd := range nodes {
 				if nd != nil && nd.db != nil {
+					nd.release()
 					_ = nd.db.Close()
 				}
 			}
@@ -535,7 +624,7 @@ func runACBody(t *testing.T, c acCase, st *drv.Stats, prop string, failp **drv.F
 		}()
 		// bring the cluster up without faults
 		for i := 1; i <= c.Nodes; i++ {
-			nd := &acNode{id: i, addr: address.Newf("localhost:%d", 10000+i), eng: memkv.New(), maxVer: map[string]int64{}}
+			nd := &acNode{id: i, addr: address.Newf("localhost:%d", 10000+i), eng: memkv.New(), maxVer: map[string]int64{}, stored: map[string]bool{}}
 			nodes[i] = nd
 			net.addrOf[i] = nd.addr
 			net.idOf[nd.addr] = i
@@ -587,6 +676,12 @@ func runACBody(t *testing.T, c acCase, st *drv.Stats, prop string, failp **drv.F
 					if !ok {
 						continue
 					}
+					if nd.db != nil {
+						if b, closer, err := nd.db.Get(ctx, []byte(key)); err == nil {
+							nd.stored[key+"="+string(b)] = true
+							_ = closer.Close()
+						}
+					}
 					if d.Version < nd.maxVer[key] {
 						return drv.Failf("kv-regression", "version-went-back", "%s: node %d key %q stored version %d after having stored version %d", what, nd.id, key, d.Version, nd.maxVer[key])
 					}
@@ -626,7 +721,7 @@ func runACBody(t *testing.T, c acCase, st *drv.Stats, prop string, failp **drv.F
 					}
 				}
 				seq++
-				w := acWrite{key: ev.Key, val: "v" + strconv.Itoa(seq), del: ev.K == "del", node: ev.Node}
+				w := acWrite{ev: ei, key: ev.Key, val: "v" + strconv.Itoa(seq), del: ev.K == "del", node: ev.Node}
 				octx, cancel := context.WithTimeout(ctx, 2*time.Second)
 				var err error
 				if w.del {
@@ -646,6 +741,92 @@ func runACBody(t *testing.T, c acCase, st *drv.Stats, prop string, failp **drv.F
 					// out) may or may not have been applied by the leaseholder
 					st.Probe("write_failed_under_faults")
 				}
+			case "tx":
+				nd := nodes[ev.Node]
+				if nd.db == nil {
+					continue
+				}
+				knowsAll := true
+				for _, key := range ev.Keys {
+					if keySet[key] {
+						if _, ok := digestOf(nd, key); !ok {
+							knowsAll = false
+						}
+					}
+				}
+				if !knowsAll {
+					st.Probe("write_skipped_key_unknown_at_gateway")
+					continue
+				}
+				octx, cancel := context.WithTimeout(ctx, 2*time.Second)
+				tx := nd.db.OpenTx()
+				var txw []acWrite
+				var err error
+				// a key set twice in one transaction is two operations that both carry the
+				// final value (tx.toRequests reads the value back from the transaction), so
+				// observers would see one value under two versions: keep the keys of a
+				// transaction distinct, writes are told apart by their value here
+				var distinct []string
+				for _, key := range ev.Keys {
+					dup := false
+					for _, k2 := range distinct {
+						dup = dup || k2 == key
+					}
+					if !dup {
+						distinct = append(distinct, key)
+					}
+				}
+				for _, key := range distinct {
+					seq++
+					w := acWrite{ev: ei, key: key, val: "v" + strconv.Itoa(seq), node: ev.Node}
+					if err == nil {
+						err = tx.Set(octx, []byte(key), []byte(w.val))
+					}
+					txw = append(txw, w)
+				}
+				if err == nil {
+					err = tx.Commit(octx)
+				}
+				_ = tx.Close()
+				cancel()
+				for _, w := range txw {
+					w.ok = err == nil
+					writes = append(writes, w)
+					keySet[w.key] = true
+					if w.ok {
+						last[w.key] = len(writes) - 1
+					}
+				}
+				if err == nil {
+					st.Probe("tx_ok")
+				} else {
+					st.Probe("write_failed_under_faults")
+				}
+			case "burst":
+				nd := nodes[ev.Node]
+				if nd.db == nil {
+					continue
+				}
+				if keySet[ev.Key] {
+					if _, ok := digestOf(nd, ev.Key); !ok {
+						st.Probe("write_skipped_key_unknown_at_gateway")
+						continue
+					}
+				}
+				for n := 0; n < ev.N; n++ {
+					seq++
+					w := acWrite{ev: ei, key: ev.Key, val: "v" + strconv.Itoa(seq), node: ev.Node}
+					octx, cancel := context.WithTimeout(ctx, 2*time.Second)
+					err := nd.db.Set(octx, []byte(ev.Key), []byte(w.val))
+					cancel()
+					w.ok = err == nil
+					writes = append(writes, w)
+					keySet[ev.Key] = true
+					if w.ok {
+						last[ev.Key] = len(writes) - 1
+					}
+				}
+				st.Probe("burst_of_writes")
 			case "sleep":
 				time.Sleep(time.Duration(ev.MS) * time.Millisecond)
 			case "part":
@@ -662,6 +843,15 @@ func runACBody(t *testing.T, c acCase, st *drv.Stats, prop string, failp **drv.F
 				if nd.db == nil {
 					continue
 				}
+				// what is delivered to the node from now until it is back may not be
+				// applied (gossip is acknowledged before the pipeline persists it)
+				net.mu.Lock()
+				net.down[nd.id] = true
+				nd.restarted = true
+				net.epoch[nd.id]++
+				delete(net.offered, nd.id)
+				net.mu.Unlock()
+				nd.release()
 				if err := nd.db.Close(); err != nil {
 					fail = drv.Failf("unexpected-error", "close", "%s: close node: %v", what, err)
 					return
@@ -674,6 +864,9 @@ func runACBody(t *testing.T, c acCase, st *drv.Stats, prop string, failp **drv.F
 					st.Probe("restart_open_failed_under_faults")
 					continue
 				}
+				net.mu.Lock()
+				net.down[nd.id] = false
+				net.mu.Unlock()
 				st.Fault("restart")
 			}
 			settle()
@@ -696,6 +889,9 @@ func runACBody(t *testing.T, c acCase, st *drv.Stats, prop string, failp **drv.F
 					fail = drv.Failf("liveness", "reopen-after-faults", "node %d cannot rejoin after faults stopped: %v", nd.id, err)
 					return
 				}
+				net.mu.Lock()
+				net.down[nd.id] = false
+				net.mu.Unlock()
 			}
 		}
 		// bounded convergence: once faults stop every node holds the leaseholder's latest
@@ -739,52 +935,18 @@ func runACBody(t *testing.T, c acCase, st *drv.Stats, prop string, failp **drv.F
 			// before it was restarted, while a peer lacks it? The restarted node's
 			// in-memory gossip store no longer carries that operation and start-up
 			// recovery only pulls from peers (recorded known finding).
-			sig := "after-faults-stopped"
+			sig := acClassifyStall(c, net, nodes, keySet, writes, digestOf)
 			for key := range keySet {
-				lh, lastW := 0, -1
-				for i, w := range writes {
-					if w.key == key && w.ok {
-						if lh == 0 {
-							lh = w.node
-						}
-						lastW = i
+				for _, nd := range nodes[1:] {
+					d, ok := digestOf(nd, key)
+					b, closer, gerr := nd.db.Get(ctx, []byte(key))
+					val := "<absent>"
+					if gerr == nil {
+						val = string(b)
+						_ = closer.Close()
 					}
+					why += fmt.Sprintf("; node %d key %s: value %s digest(present=%v version=%d leaseholder=%d variant=%d)", nd.id, key, val, ok, d.Version, d.Leaseholder, d.Variant)
 				}
-				if lh == 0 {
-					continue
-				}
-				// event index of the last acknowledged write of the key
-				wi, evOfWrite := -1, -1
-				for ei, ev := range c.Events {
-					if ev.K == "set" || ev.K == "del" {
-						wi++
-						if wi == lastW {
-							evOfWrite = ei
-						}
-					}
-				}
-				for ei, ev := range c.Events {
-					if ev.K == "restart" && ev.Node == lh && ei > evOfWrite && evOfWrite >= 0 {
-						sig = "leaseholder-restarted-before-its-write-was-gossiped"
-					}
-				}
-				// any acknowledged write of the key followed by a restart of the leaseholder
-				wi = -1
-				for ei, ev := range c.Events {
-					if ev.K == "set" || ev.K == "del" {
-						wi++
-						if wi < len(writes) && writes[wi].key == key && writes[wi].ok {
-							for _, ev2 := range c.Events[ei:] {
-								if ev2.K == "restart" && ev2.Node == lh {
-									sig = "leaseholder-restarted-before-its-write-was-gossiped"
-								}
-							}
-						}
-					}
-				}
-			}
-			if sig == "after-faults-stopped" {
-				sig = acClassifyStall(c, net, nodes, keySet, writes, digestOf)
 			}
 			fail = drv.Failf("kv-no-convergence", sig, "%v of virtual time after faults stopped and partitions healed the nodes still disagree: %s", budget, why)
 			return
@@ -877,6 +1039,57 @@ func runACBody(t *testing.T, c acCase, st *drv.Stats, prop string, failp **drv.F
 					}
 					j++
 				}
+			}
+			// completeness and exactness on nodes that ran without interruption (a
+			// restarted node applies what start-up recovery pulls before any subscriber
+			// can be attached): every value the node was seen to hold was notified to the
+			// subscriber that keeps up, whatever a stalled co-subscriber does, and the
+			// filtered stream is exactly the unfiltered one minus the changes led by the
+			// host
+			time.Sleep(200 * time.Millisecond)
+			for _, nd := range nodes[1:] {
+				if nd.restarted {
+					continue
+				}
+				nd.mu.Lock()
+				notes, fnotes := append([]acNote(nil), nd.notes...), append([]acNote(nil), nd.fnotes...)
+				nd.mu.Unlock()
+				have := map[string]bool{}
+				for _, n := range notes {
+					if !n.del {
+						have[n.key+"="+n.val] = true
+					}
+				}
+				storedKeys := make([]string, 0, len(nd.stored))
+				for kv := range nd.stored {
+					storedKeys = append(storedKeys, kv)
+				}
+				sort.Strings(storedKeys)
+				for _, kv := range storedKeys {
+					if !have[kv] {
+						sig := "stored-change-never-notified"
+						if c.Stall == nd.id {
+							sig += ":next-to-stalled-subscriber"
+						}
+						fail = drv.Failf("observer-incomplete", sig, "node %d was seen to hold %s but its unfiltered subscriber, which keeps up, was never notified of it (%d notifications)", nd.id, kv, len(notes))
+						return
+					}
+				}
+				var want []acNote
+				for _, n := range notes {
+					if d, ok := digestOf(nd, n.key); ok && int(d.Leaseholder) != nd.id {
+						want = append(want, n)
+					}
+				}
+				same := len(want) == len(fnotes)
+				for i := 0; same && i < len(want); i++ {
+					same = want[i] == fnotes[i]
+				}
+				if !same {
+					fail = drv.Failf("observer-filter", "filtered-not-exactly-unfiltered-minus-host-led", "node %d: the host-leaseholder-filtered subscriber saw %d changes %+v, the unfiltered one minus the changes led by the host amounts to %d %+v", nd.id, len(fnotes), fnotes, len(want), want)
+					return
+				}
+				st.Probe("observer_completeness_checked")
 			}
 			st.Probe("observers_checked")
 		}
